@@ -3,12 +3,20 @@
 
    [pt] is the set of rotation points of the schedule (instants in ns).  The two premises tying the
    model's next-point computations to it,
-       NA_ok rtm c start pt   : after a rotation at record ts the next point is the first point after ts
-       INIT_ok rtm start pt   : the constructor's first point is the first point after start,
+       NA_ok rtm c start pt     : after a rotation at record ts the next point is the first point after ts
+       INIT_ok rtm c start pt   : the constructor's first point is the first point after start,
    are theorems for hourly / minutely rotation with pt = P0 + j * period (C15_schedule_hourly_minutely;
-   premise on libc: the adjusted broken-down time lies in the future) and, for daily rotation, follow
-   from the stated grid property of the libc-derived next-point function (C15_schedule_daily; it FAILS
-   for local zones on DST-change days: open finding C15-daily-dst).
+   premise on libc: the adjusted broken-down time lies in the future).  For daily rotation they follow from
+   the grid property of the next-point function (C15_schedule_daily), and that property is
+     - a theorem in GMT (timegm is arithmetic), for every variant of the code: C15_schedule_daily_gmt;
+     - a theorem in local time for the code variant (TieC15.src_plus24 = false: HH:MM is converted with
+       tm_isdst = -1, and when it has passed, tomorrow's HH:MM is taken through mktime with tm_mday + 1), from
+       premises on libc's calendar only - no premise about DST, a local day may have 23, 24 or 25 hours:
+       C15_schedule_daily_local;
+     - FALSE for the earlier variant (c_plus24 = true: + 24 h, tm_isdst of the current instant) in local zones
+       on DST-change days: daily_dst_grid_refuted (finding C15-daily-dst, repaired).
+   [rtm k t]: k = 0 the single mktime of the hourly / minutely / earlier daily code, k = 1 HH:MM:00 of t's day
+   with tm_isdst = -1, k = 2 HH:MM:00 of the next day.
    Other premises: the fixed code (c_prefix = false, inside NA_ok), overwrite on (otherwise rotation
    may stop and statements pile up in the live file), one run (ops are writes with positive sizes and
    non-decreasing timestamps: [mono 0 ops]), directory without files named stem.*.ext, live file
@@ -16,13 +24,14 @@
 From Coq Require Import List NArith.
 From Quill Require Import Rotate.RotFS Rotate.RotModel Rotate.RotChain Rotate.RotInv Rotate.RotRun Rotate.RotRestart
   Rotate.RotProps Rotate.RotSched Rotate.RotTheorems Rotate.RotWitness.
+From Quill Require TieC15.
 Import ListNotations.
 Open Scope N_scope.
 
 (* C15_separates: no file holds two statements with a rotation point g, start < g, ts a < g <= ts b *)
 Theorem C15_separates : forall strf rtm c, (forall k t, strf k t <> []) -> forall wm rm start d0 pt,
   c_over c = true -> c_freq c <> FDisabled ->
-  NA_ok rtm c start pt -> INIT_ok rtm start pt ->
+  NA_ok rtm c start pt -> INIT_ok rtm c start pt ->
   clean c d0 -> (wm = false -> fs_content (live_path c) d0 = []) ->
   forall ops, mono 0 ops ->
   forall f, In f (dq (run0 strf rtm c wm rm start d0 ops)) ->
@@ -37,7 +46,7 @@ Print Assumptions C15_separates.
    later timestamps *)
 Theorem C15_shares : forall strf rtm c, (forall k t, strf k t <> []) -> forall wm rm start d0 pt,
   c_over c = true -> c_freq c <> FDisabled ->
-  NA_ok rtm c start pt -> INIT_ok rtm start pt ->
+  NA_ok rtm c start pt -> INIT_ok rtm c start pt ->
   clean c d0 -> (wm = false -> fs_content (live_path c) d0 = []) ->
   forall ops1 id ts wr cnt mid hi,
   mono 0 (ops1 ++ Write id ts wr cnt :: mid) ->
@@ -95,23 +104,64 @@ Print Assumptions C15_compose.
 (* the schedule premises, hourly / minutely: pt = P0 + j * period *)
 Theorem C15_schedule_hourly_minutely : forall rtm c start,
   c_prefix c = false -> (c_freq c = FHourly \/ c_freq c = FMinutely) -> 0 < c_interval c ->
-  start / NS < rtm (start / NS) ->
-  NA_ok rtm c start (grid_pt rtm c start) /\ INIT_ok rtm start (grid_pt rtm c start).
+  start / NS < rtm 0 (start / NS) ->
+  NA_ok rtm c start (grid_pt rtm c start) /\ INIT_ok rtm c start (grid_pt rtm c start).
 Proof.
   exact (fun rtm c start H1 H2 H3 H4 =>
-    conj (NA_hourly_minutely rtm c start H1 H2 H3) (INIT_hourly_minutely rtm c start H4)).
+    conj (NA_hourly_minutely rtm c start H1 H2 H3) (INIT_hourly_minutely rtm c start H2 H4)).
 Qed.
 Print Assumptions C15_schedule_hourly_minutely.
 
 (* the schedule premises, daily: from the grid property  next t > t /\ is_HHMM (next t) /\ first such *)
 Theorem C15_schedule_daily : forall rtm c start is_pt,
-  c_prefix c = false -> c_freq c = FDaily -> grid_property rtm start is_pt ->
-  NA_ok rtm c start is_pt /\ INIT_ok rtm start is_pt.
+  c_prefix c = false -> c_freq c = FDaily -> grid_property rtm c start is_pt ->
+  NA_ok rtm c start is_pt /\ INIT_ok rtm c start is_pt.
 Proof.
   exact (fun rtm c start is_pt H1 H2 H3 =>
-    conj (NA_daily rtm c start H1 is_pt H2 H3) (INIT_daily rtm start is_pt H3)).
+    conj (NA_daily rtm c start H1 is_pt H2 H3) (INIT_daily rtm c start is_pt H3)).
 Qed.
 Print Assumptions C15_schedule_daily.
+
+(* T-src: the variant that stands for the source tree takes tomorrow's HH:MM through mktime
+   (c_plus24 = false); the regenerated skeleton of _calculate_initial_rotation_tp is the one the model was
+   written against.  (On a tree without the repair of C15-daily-dst TieC15 does not compile and this
+   theorem and C15_schedule_daily_local are not discharged.) *)
+Theorem C15_code_variant :
+  TieC15.src_plus24 = false /\
+  QuillGen.SrcFacts.sk_rot_initial_rotation_tp = TieC15.exp_rot_initial_rotation_tp.
+Proof. exact (conj TieC15.src_plus24_false TieC15.c15_skeleton_ok). Qed.
+Print Assumptions C15_code_variant.
+
+(* the schedule premises, daily, LOCAL time, the code variant - without the grid property as a premise.
+   libc is described by the local calendar: [day t] = local day number of instant t (s), [at_hm d] = the
+   instant mktime returns for HH:MM:00 of local day d with tm_isdst = -1.  Premises (libc only): local days
+   do not go backwards; the instant returned for day d lies in day d; the two mktime calls of the code are
+   at_hm of the day of "now" and of the next day.  The rotation points are the instants at_hm d. *)
+Theorem C15_schedule_daily_local : forall rtm c start (day at_hm : N -> N),
+  c_prefix c = false -> c_freq c = FDaily -> c_plus24 c = TieC15.src_plus24 -> c_gmt c = false ->
+  (forall t1 t2, t1 <= t2 -> day t1 <= day t2) ->
+  (forall d, day (at_hm d) = d) ->
+  (forall t, start / NS <= t -> rtm 1 t = at_hm (day t)) ->
+  (forall t, start / NS <= t -> rtm 2 t = at_hm (day t + 1)) ->
+  NA_ok rtm c start (hm_pt at_hm) /\ INIT_ok rtm c start (hm_pt at_hm).
+Proof.
+  exact (fun rtm c start day at_hm H1 H2 H3 H4 L1 L2 L3 L4 =>
+    let G := daily_grid_fixed rtm c start H2 (eq_trans H3 TieC15.src_plus24_false) H4 day at_hm L1 L2 L3 L4 in
+    conj (NA_daily rtm c start H1 (hm_pt at_hm) H2 G) (INIT_daily rtm c start (hm_pt at_hm) G)).
+Qed.
+Print Assumptions C15_schedule_daily_local.
+
+(* the schedule premises, daily, GMT: timegm is arithmetic (hm = seconds after midnight); every variant *)
+Theorem C15_schedule_daily_gmt : forall rtm c start hm,
+  c_prefix c = false -> c_freq c = FDaily -> c_gmt c = true -> hm < 86400 ->
+  (forall k t, k <> 2 -> rtm k t = t / 86400 * 86400 + hm) ->
+  NA_ok rtm c start (day_pt hm) /\ INIT_ok rtm c start (day_pt hm).
+Proof.
+  exact (fun rtm c start hm H1 H2 H3 H4 H5 =>
+    let G := daily_grid_gmt rtm c hm start H4 H3 H5 in
+    conj (NA_daily rtm c start H1 (day_pt hm) H2 G) (INIT_daily rtm c start (day_pt hm) G)).
+Qed.
+Print Assumptions C15_schedule_daily_gmt.
 
 (* D7: with the pre-fix behaviour (next point = record timestamp + period) separation fails: minutely
    schedule 60 s + j * 60 s, statements at 90 s, 100 s, 125 s: 100 s and 125 s share the live file
@@ -123,20 +173,34 @@ Theorem sched_drift_refuted :
 Proof. exact sched_drift_refuted_lem. Qed.
 Print Assumptions sched_drift_refuted.
 
-(* open finding C15-daily-dst: for the real libc (Europe/Berlin, daily 12:00, values returned by glibc on
-   2023-10-28/29) the model's next point after 28 Oct 12:00 CEST is 29 Oct 11:00 CET, not a 12:00
-   instant: the grid property — the premise of C15_schedule_daily — is false there. *)
+(* finding C15-daily-dst (repaired; kept as a statement about the earlier variant berlin_cfg true,
+   c_plus24 = true): for the real libc (Europe/Berlin, daily 12:00, values returned by glibc on
+   2023-10-28/29) that variant's next point after 28 Oct 12:00 CEST is 29 Oct 11:00 CET, not a 12:00
+   instant: the grid property - the premise of C15_schedule_daily - is false there. *)
 Theorem daily_dst_grid_refuted :
-  init_tp berlin_rtm (1698487200 * NS) = 1698573600 * NS /\
+  c_plus24 (berlin_cfg true) = true /\
+  init_tp berlin_rtm (berlin_cfg true) (1698487200 * NS) = 1698573600 * NS /\
   ~ berlin_noon (1698573600 * NS) /\
-  ~ grid_property berlin_rtm (1698487200 * NS) berlin_noon.
-Proof. exact daily_dst_grid_refuted_lem. Qed.
+  ~ grid_property berlin_rtm (berlin_cfg true) (1698487200 * NS) berlin_noon.
+Proof. exact (conj eq_refl daily_dst_grid_refuted_lem). Qed.
 Print Assumptions daily_dst_grid_refuted.
+
+(* ... and the repaired code on the same libc values: 29 Oct 12:00 CET *)
+Theorem daily_dst_code_example :
+  init_tp berlin_rtm (berlin_cfg false) (1698487200 * NS) = 1698577200 * NS /\ berlin_noon (1698577200 * NS).
+Proof. exact daily_dst_fixed_example. Qed.
+Print Assumptions daily_dst_code_example.
 
 (* non-vacuity: the premises hold for a GMT-like oracle (minutely schedule; daily grid property) *)
 Theorem C15_premises_satisfiable :
   (NA_ok toy_rtm_min (drift_cfg false) 0 (grid_pt toy_rtm_min (drift_cfg false) 0) /\
-   INIT_ok toy_rtm_min 0 (grid_pt toy_rtm_min (drift_cfg false) 0) /\ mono 0 drift_ops) /\
-  (forall hm start, hm < 86400 -> grid_property (toy_rtm_day hm) start (day_pt hm)).
-Proof. exact (conj C15_premises_minutely toy_daily_grid). Qed.
+   INIT_ok toy_rtm_min (drift_cfg false) 0 (grid_pt toy_rtm_min (drift_cfg false) 0) /\ mono 0 drift_ops) /\
+  (forall c hm start, hm < 86400 -> c_gmt c = true -> grid_property (toy_rtm_day hm) c start (day_pt hm)) /\
+  (forall hm start, hm < 86400 ->
+     let day := fun t => t / 86400 in
+     let at_hm := fun d => d * 86400 + hm in
+     (forall t1 t2, t1 <= t2 -> day t1 <= day t2) /\ (forall d, day (at_hm d) = d) /\
+     (forall t, start / NS <= t -> toy_rtm_day hm 1 t = at_hm (day t)) /\
+     (forall t, start / NS <= t -> toy_rtm_day hm 2 t = at_hm (day t + 1))).
+Proof. exact (conj C15_premises_minutely (conj toy_daily_grid daily_fixed_premises_satisfiable)). Qed.
 Print Assumptions C15_premises_satisfiable.
